@@ -211,10 +211,11 @@ class Gen(object):
                     layout.append(nn)
                 else:
                     layout[off] = min(layout[off], nn)
+            descending = r.random() < 0.5      # the set numbers need not follow the order of the inputs
             for t in range(ntex):
                 if r.random() < 0.7:
                     off = off + r.choice([0, 1, 1])
-                    il.addInput(off, 'TEXCOORD', '#%s-uv%d' % (gid, t), str(t) if r.random() < 0.8 else None)
+                    il.addInput(off, 'TEXCOORD', '#%s-uv%d' % (gid, t), str(ntex - 1 - t) if descending else str(t) if r.random() < 0.8 else None)
                     if off == len(layout):
                         layout.append(nt[t])
                     else:
